@@ -38,6 +38,7 @@ Inductive expr :=
 | EStrip (a : expr)
 | ELower (a : expr)
 | EIsDict (a : expr)
+| EIsStr (a : expr)
 | EJoin (sep : list ascii) (a : expr)        (* sep.join(list of strings) *)
 | EMod (a b : expr)
 | EFormat (template : list ascii) (args : list expr)    (* "...%s..." % (a, b, ...) with string arguments *)
@@ -379,6 +380,12 @@ Fixpoint eval (e : expr) (r : env) {struct e} : value :=
                  | VErr => VErr
                  | _ => VBool false
                  end
+  | EIsStr a => match eval a r with
+                | VStr _ => VBool true
+                | VExc => VExc
+                | VErr => VErr
+                | _ => VBool false
+                end
   | EJoin sep a => match eval a r with
                    | VList l => match join_strs sep l with Some t => VStr t | None => VErr end
                    | VExc => VExc
